@@ -59,7 +59,10 @@ fn build(walls: &[usize], wins: &[usize], tbs: &[usize], nil_space: bool) -> Mod
             2 => Some(uid("absent-next")),
             _ => Some(nil()),
         };
-        let mut w = wall(&format!("w{k}"), if nt.is_some() { BoundaryType::INTERIOR } else { BoundaryType::EXTERIOR }, cons, sp, nt, geom(90.0, 0.0, Some([0.0, k as f32 * 5.0, 0.0]), rect(4.0, 3.0)));
+        // the boundary kind cycles with the option index and the position, so every (adjacent-space option, boundary kind)
+        // pair occurs: a link is a link whatever the kind of the wall that carries it
+        let bounds = [BoundaryType::INTERIOR, BoundaryType::EXTERIOR, BoundaryType::ADIABATIC, BoundaryType::GROUND][(o + k) % 4];
+        let mut w = wall(&format!("w{k}"), bounds, cons, sp, nt, geom(90.0, 0.0, Some([0.0, k as f32 * 5.0, 0.0]), rect(4.0, 3.0)));
         if k == 1 {
             w.geometry.azimuth = 90.0;
         }
@@ -237,7 +240,7 @@ pub fn run(ctx: &Ctx) -> i32 {
     }
     ctx.finish(
         "model_checking",
-        &format!("full product: 0..2 walls x (space{{ok,absent,nil}} x cons{{ok,absent,nil}} x next_to{{None,ok,absent,nil}}) x 0..{} windows x (wall{{ok,absent,nil}} x cons{{ok,absent}}) x 0..{} bridges x l{{-1,-0.0,0,2,-0.004,-1e-30}} x {{no space with nil id, one}}; oracle = number of broken links per element id (reference: set membership, l<0), compared with the number of warnings carrying that id; every 97th model also: JSON unchanged by check(), energy_indicators().warnings == check(); + 7 shipped models; non-trivial = at least one broken link expected", 2, ctx.tier.pick(1, 2)),
+        &format!("full product: 0..2 walls x (space{{ok,absent,nil}} x cons{{ok,absent,nil}} x next_to{{None,ok,absent,nil}}, the boundary kind cycling through INTERIOR/EXTERIOR/ADIABATIC/GROUND so that every (next_to option, kind) pair occurs) x 0..{} windows x (wall{{ok,absent,nil}} x cons{{ok,absent}}) x 0..{} bridges x l{{-1,-0.0,0,2,-0.004,-1e-30}} x {{no space with nil id, one}}; oracle = number of broken links per element id (reference: set membership, l<0), compared with the number of warnings carrying that id; every 97th model also: JSON unchanged by check(), energy_indicators().warnings == check(); + 7 shipped models; non-trivial = at least one broken link expected", 2, ctx.tier.pick(1, 2)),
         true,
         json!({"space_size": n}),
     )
